@@ -2,6 +2,7 @@
 use binary_stream::futures::{Decodable, Encodable};
 use futures::{pin_mut, StreamExt};
 use sos_backend::BackendEventLog;
+use sos_core::commit::CommitHash;
 use sos_core::events::{
     patch::{AccountDiff, CheckedPatch, DeviceDiff, FolderDiff, Patch},
     AccountEvent, DeviceEvent, EventLog, EventLogType, EventRecord,
@@ -264,7 +265,21 @@ where
             let (last_commit, records) = if let Some(commit) = &req.commit {
                 let log = storage.identity_log().await?;
                 let mut event_log = log.write().await;
-                let records = event_log.rewind(commit).await?;
+                let records = match rewind_for_patch(
+                    &mut *event_log,
+                    commit,
+                    patch.records(),
+                )
+                .await?
+                {
+                    Ok(records) => records,
+                    Err(checked_patch) => {
+                        return Ok((
+                            PatchResponse { checked_patch },
+                            MergeOutcome::default(),
+                        ))
+                    }
+                };
                 (Some(*commit), records)
             } else {
                 (None, vec![])
@@ -288,7 +303,21 @@ where
             let (last_commit, records) = if let Some(commit) = &req.commit {
                 let log = storage.account_log().await?;
                 let mut event_log = log.write().await;
-                let records = event_log.rewind(commit).await?;
+                let records = match rewind_for_patch(
+                    &mut *event_log,
+                    commit,
+                    patch.records(),
+                )
+                .await?
+                {
+                    Ok(records) => records,
+                    Err(checked_patch) => {
+                        return Ok((
+                            PatchResponse { checked_patch },
+                            MergeOutcome::default(),
+                        ))
+                    }
+                };
                 (Some(*commit), records)
             } else {
                 (None, vec![])
@@ -312,7 +341,21 @@ where
             let (last_commit, records) = if let Some(commit) = &req.commit {
                 let log = storage.device_log().await?;
                 let mut event_log = log.write().await;
-                let records = event_log.rewind(commit).await?;
+                let records = match rewind_for_patch(
+                    &mut *event_log,
+                    commit,
+                    patch.records(),
+                )
+                .await?
+                {
+                    Ok(records) => records,
+                    Err(checked_patch) => {
+                        return Ok((
+                            PatchResponse { checked_patch },
+                            MergeOutcome::default(),
+                        ))
+                    }
+                };
                 (Some(*commit), records)
             } else {
                 (None, vec![])
@@ -337,7 +380,21 @@ where
             let (last_commit, records) = if let Some(commit) = &req.commit {
                 let log = storage.file_log().await?;
                 let mut event_log = log.write().await;
-                let records = event_log.rewind(commit).await?;
+                let records = match rewind_for_patch(
+                    &mut *event_log,
+                    commit,
+                    patch.records(),
+                )
+                .await?
+                {
+                    Ok(records) => records,
+                    Err(checked_patch) => {
+                        return Ok((
+                            PatchResponse { checked_patch },
+                            MergeOutcome::default(),
+                        ))
+                    }
+                };
                 (Some(*commit), records)
             } else {
                 (None, vec![])
@@ -361,7 +418,21 @@ where
             let (last_commit, records) = if let Some(commit) = &req.commit {
                 let log = storage.folder_log(id).await?;
                 let mut event_log = log.write().await;
-                let records = event_log.rewind(commit).await?;
+                let records = match rewind_for_patch(
+                    &mut *event_log,
+                    commit,
+                    patch.records(),
+                )
+                .await?
+                {
+                    Ok(records) => records,
+                    Err(checked_patch) => {
+                        return Ok((
+                            PatchResponse { checked_patch },
+                            MergeOutcome::default(),
+                        ))
+                    }
+                };
                 (Some(*commit), records)
             } else {
                 (None, vec![])
@@ -392,6 +463,42 @@ where
     }
 
     Ok((PatchResponse { checked_patch }, outcome))
+}
+
+/// Rewind an event log before applying a patch.
+///
+/// The sender combined its own events with the events it
+/// saw after the commit, so the patch includes every record
+/// that the rewind discards. When it does not, another
+/// client has appended events since and the rewind would drop
+/// them; the rewind is reverted and a conflict is reported
+/// so that the sender merges again.
+async fn rewind_for_patch<T, L>(
+    event_log: &mut L,
+    commit: &CommitHash,
+    patch: &[EventRecord],
+) -> std::result::Result<
+    std::result::Result<Vec<EventRecord>, CheckedPatch>,
+    sos_backend::Error,
+>
+where
+    T: Default + Encodable + Decodable + Send + Sync + 'static,
+    L: EventLog<T, Error = sos_backend::Error>,
+{
+    let records = event_log.rewind(commit).await?;
+    let includes_discarded = records.iter().all(|record| {
+        patch.iter().any(|item| item.commit() == record.commit())
+    });
+    if includes_discarded {
+        Ok(Ok(records))
+    } else {
+        event_log.apply_records(records).await?;
+        let head = event_log.tree().head()?;
+        Ok(Err(CheckedPatch::Conflict {
+            head,
+            contains: None,
+        }))
+    }
 }
 
 async fn rollback_rewind<S, E>(
